@@ -33,19 +33,21 @@ theorem updateMany_spec (l olds news l' : List Rule) (ok : Bool) (hd : l.Nodup)
     (h : updateMany none l olds news = .ok (l', ok)) :
     (ok = false → l' = l) ∧
     (ok = true → l'.Nodup ∧ l'.length = l.length ∧ olds.length = news.length ∧ (∀ o ∈ olds, o ∈ l) ∧
-      l' = (olds.zip news).foldl (fun acc (p : Rule × Rule) => acc.set (l.idxOf p.1) p.2) l) := by
+      l' = (olds.zip news).foldl (fun acc (p : Rule × Rule) => acc.set (l.idxOf p.1) p.2) l ∧ olds.Nodup) := by
   unfold updateMany at h
   by_cases hlen : (olds.length != news.length) = true
   · simp only [hlen, ↓reduceIte] at h; cases h; exact ⟨fun _ => rfl, fun e => by cases e⟩
-  · by_cases hall : (!olds.all l.contains) = true
-    · simp only [hlen, hall, ↓reduceIte] at h; cases h; exact ⟨fun _ => rfl, fun e => by cases e⟩
-    · simp only [hlen, hall, ↓reduceIte] at h
+  · by_cases hdup : (olds.any fun o => decide (olds.count o > 1)) = true
+    · simp only [hlen, hdup, ↓reduceIte] at h; cases h; exact ⟨fun _ => rfl, fun e => by cases e⟩
+    by_cases hall : (!olds.all l.contains) = true
+    · simp only [hlen, hdup, hall, ↓reduceIte] at h; cases h; exact ⟨fun _ => rfl, fun e => by cases e⟩
+    · simp only [hlen, hdup, hall, ↓reduceIte] at h
       by_cases hcnt : (news.any fun n =>
           decide (List.count n ((olds.zip news).foldl (fun acc x => acc.set (List.idxOf x.fst l) x.snd) l) > 1)) = true
       · simp only [hcnt, ↓reduceIte] at h; cases h; exact ⟨fun _ => rfl, fun e => by cases e⟩
       · simp only [hcnt, ↓reduceIte] at h
         cases h
-        refine ⟨(fun e => by cases e), fun _ => ⟨?_, ?_, (by simpa using hlen), ?_, rfl⟩⟩
+        refine ⟨(fun e => by cases e), fun _ => ⟨?_, ?_, (by simpa using hlen), ?_, rfl, ?_⟩⟩
         · rw [List.nodup_iff_count]
           intro a
           by_cases ha : a ∈ news
@@ -58,6 +60,124 @@ theorem updateMany_spec (l olds news l' : List Rule) (ok : Bool) (hd : l.Nodup)
         · intro o ho
           have : olds.all l.contains = true := by simpa using hall
           simpa using (List.all_eq_true.mp this) o ho
+        · rw [List.nodup_iff_count]
+          intro a
+          by_cases ha : a ∈ olds
+          · have := hdup
+            simp only [List.any_eq_true, decide_eq_true_eq, not_exists, not_and, Nat.not_lt] at this
+            exact this a ha
+          · rw [List.count_eq_zero_of_not_mem ha]; omega
+
+/-- position-wise description of the in-place replacement -/
+theorem foldl_set_getElem? (l : List Rule) (hd : l.Nodup) (ps : List (Rule × Rule)) (acc : List Rule)
+    (hin : ∀ p ∈ ps, p.1 ∈ l) (hnd : (ps.map (·.1)).Nodup) (hlen : acc.length = l.length)
+    (i : Nat) (hi : i < l.length) :
+    (ps.foldl (fun acc (p : Rule × Rule) => acc.set (l.idxOf p.1) p.2) acc)[i]? =
+      match ps.find? (·.1 == l[i]) with
+      | some p => some p.2
+      | none => acc[i]? := by
+  induction ps generalizing acc with
+  | nil => simp
+  | cons p ps ih =>
+    simp only [List.foldl_cons]
+    have hnd' : (ps.map (·.1)).Nodup := (List.nodup_cons.mp (by simpa using hnd)).2
+    have hp1 : p.1 ∉ ps.map (·.1) := (List.nodup_cons.mp (by simpa using hnd)).1
+    rw [ih (acc.set (l.idxOf p.1) p.2) (fun q hq => hin q (by simp [hq])) hnd' (by simp [hlen])]
+    have hpl : p.1 ∈ l := hin p (by simp)
+    by_cases hpi : p.1 = l[i]
+    · -- this pair rewrites position i; no later pair has the same old rule
+      have hnone : ps.find? (·.1 == l[i]) = none := by
+        apply List.find?_eq_none.mpr
+        intro q hq hc
+        have : q.1 = l[i] := by simpa using hc
+        exact hp1 (by rw [hpi, ← this]; exact List.mem_map_of_mem (f := (·.1)) hq)
+      simp only [hnone, List.find?_cons, hpi, beq_self_eq_true]
+      rw [List.Nodup.idxOf_getElem hd i hi, List.getElem?_set_self (by omega)]
+    · have hne : l.idxOf p.1 ≠ i := by
+        intro hc
+        apply hpi
+        have := List.getElem_idxOf (List.idxOf_lt_length_of_mem hpl)
+        simp only [hc] at this
+        exact this.symm
+      have hb : (p.1 == l[i]) = false := by simpa using hpi
+      simp only [List.find?_cons, hb]
+      rw [List.getElem?_set_ne hne]
+
+/-- the in-place batch replacement equals rewriting every rule that is the old side of a pair -/
+theorem foldl_set_eq_map (l : List Rule) (hd : l.Nodup) (olds news : List Rule)
+    (hin : ∀ o ∈ olds, o ∈ l) (hnd : olds.Nodup) (hlen : olds.length = news.length) :
+    (olds.zip news).foldl (fun acc (p : Rule × Rule) => acc.set (l.idxOf p.1) p.2) l =
+      l.map fun x => match (olds.zip news).find? (·.1 == x) with | some (_, n) => n | none => x := by
+  have hfst : (olds.zip news).map (·.1) = olds := by
+    rw [List.map_fst_zip]; omega
+  apply List.ext_getElem?
+  intro i
+  by_cases hi : i < l.length
+  · rw [foldl_set_getElem? l hd (olds.zip news) l
+      (fun p hp => hin p.1 (List.of_mem_zip hp).1) (by rw [hfst]; exact hnd) rfl i hi]
+    rw [List.getElem?_map, List.getElem?_eq_getElem hi]
+    simp only [Option.map_some]
+    cases (olds.zip news).find? (·.1 == l[i]) with
+    | none => rfl
+    | some p => rfl
+  · have h1 : ((olds.zip news).foldl (fun acc (p : Rule × Rule) => acc.set (l.idxOf p.1) p.2) l).length = l.length :=
+      foldl_set_length l _ l
+    rw [List.getElem?_eq_none (by omega), List.getElem?_eq_none (by simp; omega)]
+
+/-- **`update_policies` refines the batch-update specification**: on a duplicate-free rule list the call answers exactly
+    what `Spec.updateMany` prescribes - every pair applied at once, in place, or nothing changed and `False`
+    (lengths differ, an old rule named twice, an old rule absent, or the result would hold a rule twice) -/
+theorem updateMany_refines (l olds news : List Rule) (hd : l.Nodup) :
+    updateMany none l olds news = .ok (Spec.updateMany l olds news) := by
+  cases h : updateMany none l olds news with
+  | error e =>
+    unfold updateMany at h
+    split at h <;> try cases h
+    split at h <;> try cases h
+    split at h <;> try cases h
+    simp only at h
+    split at h <;> cases h
+  | ok res =>
+    obtain ⟨l', ok⟩ := res
+    obtain ⟨h1, h2⟩ := updateMany_spec l olds news l' ok hd h
+    congr 1
+    cases ok with
+    | true =>
+      obtain ⟨hn, _, hlen, hin, hl, hnd⟩ := h2 rfl
+      rw [foldl_set_eq_map l hd olds news hin hnd hlen] at hl
+      have hl' : l' = Spec.replaceAll l olds news := hl
+      unfold Spec.updateMany
+      rw [if_pos ⟨hlen, hnd, hin, hl' ▸ hn⟩, hl']
+    | false =>
+      have hl := h1 rfl
+      subst hl
+      unfold Spec.updateMany
+      by_cases hc : olds.length = news.length ∧ olds.Nodup ∧ (∀ o ∈ olds, o ∈ l')
+      · obtain ⟨hlen, hnd, hin⟩ := hc
+        -- the checks pass, so the model went as far as the candidate list and found a rule twice
+        have hcand : _ = Spec.replaceAll l' olds news := foldl_set_eq_map l' hd olds news hin hnd hlen
+        unfold updateMany at h
+        have e1 : (olds.length != news.length) = false := by simp [hlen]
+        have e2 : (olds.any fun o => decide (olds.count o > 1)) = false := by
+          rw [List.any_eq_false]; intro o _
+          have := (List.nodup_iff_count.mp hnd) o
+          simp; omega
+        have e3 : (!olds.all l'.contains) = false := by
+          simp; exact hin
+        simp only [e1, e2, e3, Bool.false_eq_true, ↓reduceIte] at h
+        split at h
+        · rename_i hany
+          rw [hcand] at hany
+          have hnn : ¬ (Spec.replaceAll l' olds news).Nodup := by
+            intro hnod
+            simp only [List.any_eq_true, decide_eq_true_eq] at hany
+            obtain ⟨n, _, hgt⟩ := hany
+            have := (List.nodup_iff_count.mp hnod) n
+            omega
+          rw [if_neg (fun hh => hnn hh.2.2.2)]
+        · simp only [Except.ok.injEq, Prod.mk.injEq] at h
+          exact absurd h.2 (by decide)
+      · rw [if_neg (fun hh => hc ⟨hh.1, hh.2.1, hh.2.2.1⟩)]
 
 theorem updateMany_nodup (l olds news l' : List Rule) (ok : Bool) (hd : l.Nodup)
     (h : updateMany none l olds news = .ok (l', ok)) : l'.Nodup := by
@@ -68,5 +188,10 @@ theorem updateMany_nodup (l olds news l' : List Rule) (ok : Bool) (hd : l.Nodup)
 
 example : updateMany none [["a"], ["b"], ["c"]] [["a"], ["b"]] [["b"], ["a"]] = .ok ([["b"], ["a"], ["c"]], true) := by decide
 example : updateMany none [["a"], ["b"], ["c"]] [["a"], ["b"]] [["c"], ["x"]] = .ok ([["a"], ["b"], ["c"]], false) := by decide
+-- an old rule named twice: refused as a whole (the unrepaired code answered True and kept only the last pair);
+-- a chain through a rule that is itself replaced applies at once
+example : updateMany none [["a"], ["b"], ["c"]] [["a"], ["a"]] [["x"], ["y"]] = .ok ([["a"], ["b"], ["c"]], false) := by decide
+example : updateMany none [["a"], ["b"], ["c"]] [["a"], ["b"]] [["b"], ["x"]] = .ok ([["b"], ["x"], ["c"]], true) := by decide
+example : Spec.updateMany [["a"], ["b"], ["c"]] [["a"], ["b"]] [["b"], ["x"]] = ([["b"], ["x"], ["c"]], true) := by decide
 
 end Casbin.Policy.C06
